@@ -23,7 +23,8 @@ def setup(ctx):
         "1 available parameter, 1 missing name} (32^3 graphs), in declaration orders (all 6 in thorough, 2 per graph "
         "+ all 6 on every 16th graph in quick), component kinds (derived / IA parameter / reaction / 2-output surrogate) "
         "assigned by a fixed hash of the graph index; sampled: chains, reverse chains (worst case n(n+1)/2 iterations) up "
-        "to n=40, diamonds, k-cycles with tails, self-loops, missing names, mixed kinds. distinct = distinct (graph, order); "
+        "to n=40, diamonds, k-cycles with tails, self-loops, missing names, mixed kinds; re-wiring through update_derived / "
+        "update_reaction and data sets updated / removed through update_data / remove_data between two rounds of queries. distinct = distinct (graph, order); "
         "non-trivial = at least one dependency edge"
     )
     ctx.assumptions += ["exception messages are parsed only for the names a MissingDependenciesError lists"]
@@ -140,6 +141,26 @@ def rewired(rng, n_cases):
     return out
 
 
+def data_edits(rng, n_cases):
+    """a graph in which components name a data set; ask, then update_data / remove_data through the API and ask
+    again: after a removal whatever names the data set is missing, after an update the new value is used"""
+    out = []
+    for _ in range(n_cases):
+        n = rng.randint(1, 5)
+        reqs = [rng.sample([f"c{j}" for j in range(i)] + ["p", "x"], rng.randint(0, min(2, i + 2))) for i in range(n)]
+        for i in rng.sample(range(n), rng.randint(1, min(2, n))):
+            reqs[i] = reqs[i] + ["dat"]
+        kinds = [rng.choice("dqrs") for _ in range(n)]
+        order = list(range(n))
+        rng.shuffle(order)
+        content = mk_content(reqs, kinds, order)
+        content["data"] = [["dat", "3"]]
+        edits = [rng.choice([["remove_data", "dat", None], ["update_data", "dat", str(rng.choice([1, 5]))]])]
+        out.append({"content": content, "queries": QUERIES, "decl_seed": rng.randrange(1 << 30), "edit": edits,
+                    "shape": "data_" + edits[0][0]})
+    return out
+
+
 def judge_case(ctx, case, R, M, S):
     if any(s == "inexact" for s in S):
         return
@@ -207,6 +228,7 @@ def run(ctx):
     ctx.extra_cov.setdefault("exhaustive_strata", []).insert(0, "all 32768 graphs on <=3 components" + (" x all 6 orders" if thorough else " x 2 orders (all 6 on 1/16)"))
     run_batch(ctx, sampled(ctx.rng, ctx.n(1500, 40000)))
     run_batch(ctx, rewired(ctx.rng, ctx.n(600, 10000)))
+    run_batch(ctx, data_edits(ctx.rng, ctx.n(400, 5000)))
     if thorough:
         # long chains declared back to front / shuffled: the iteration budget must cover n(n+1)/2
         big = []
